@@ -13,7 +13,7 @@ ACTIONS = ["Init", "Bump", "Shift", "Swap"]
 # read by bin/mkmanifest
 META = {
     "category": "model_checking",
-    "text": "TLC checks the four RFC 1982 laws (a+n > a for n in 1..2^(k-1)-1, antisymmetry, undefined exactly at distance 2^(k-1), shift invariance) and the equality of the transcribed partial_cmp/add with the RFC text for all pairs and all addends at 8 bits (9 and 11 bits thorough); every one of these k-bit evaluations is lifted to 32 bits by the exact embedding x*2^(32-k)+c (several offsets c, for ordered pairs also different offsets per side, which reaches the distances 2^31-1 and 2^31+1) and executed on Serial (partial_cmp, the five operators, add), Timestamp, SOA/RRSIG wire round trips, sign_rrset's validity-period check, the zone diff builder's serial-range check, the XFR middleware's IXFR decision (single SOA for a client with the same or a newer serial, transfer otherwise; XfrMiddlewareSvc::preprocess with a data provider that offers diffs and with one that has none, i.e. both comparisons of the middleware), new::base::Serial and the new API's signature time (the Timestamp returned by new::rdata::Rrsig::expiration(): partial_cmp, the five operators, into_int, Display, the conversion into rdata::dnssec::Timestamp, Range::contains, its own to_system_time); the sites are a table in the specification (SerialSites.tla: kind, site, operator of Serial.tla) from which every generated case takes one expectation per site and which the executor has to reproduce; validity windows InWindow(lo, hi, x) (new::edns::Cookie::verify, Range::contains over all four serial / time types) are checked for every triple incl. windows straddling the wrap; the freshness decision of the server cookies middleware (CookiesMiddlewareSvc::timestamp_ok: at most one hour old, at most five minutes ahead, both by RFC 1982) is specified as Fresh(now, ts, past, future) with its laws (window form = distance form = two serial comparisons, exactly past+future+1 fresh values at any clock value, never fresh at the undefined distance, shift invariance, Tick / Renew steps) checked by TLC for all k-bit (clock, timestamp) pairs, and every pair is lifted inside TLC to 32 bits in limb form (five clock offsets x eleven second offsets around both window ends, so that pairs exactly 2^31 apart, pairs more than 2^31 'ahead' numerically and pairs on either side of the 2^32 wrap occur for every clock value) and put to the real middleware with correctly hashed cookies and the process clock set to the case's clock value (prefetch request and deny-listed UDP query) and to base::opt::Cookie::check_server_hash; the placement of a signature time next to a reference time (Timestamp::to_system_time) is specified as Place(ref, ts) with its order-embedding and shift laws checked by TLC for all reference times in three eras (6 bits quick, 7 thorough), and every case is lifted (independent offsets on reference and serial) and executed; the text entry points of Timestamp (FromStr, Timestamp::scan through IterScanner, the zone-file reader's RRSIG fields; date form and integer form; Display and the zone-file formatter) are specified as 'text denotes a time t, the field holds t mod 2^k' and executed for every pair of times in three eras with real dates rendered by the harness (2106-02-07 and later included); recorded library runs on dense 32-bit operands (boundary distances 2^31+-2, neighbourhoods of 0 and 2^32-1, panicking addends, the zone store's SOA serial bump on commit) are validated by TLC through a 16-bit-limb model that TLC proves equal to the integer model at small widths.",
+    "text": "TLC checks the four RFC 1982 laws (a+n > a for n in 1..2^(k-1)-1, antisymmetry, undefined exactly at distance 2^(k-1), shift invariance) and the equality of the transcribed partial_cmp/add with the RFC text for all pairs and all addends at 8 bits (9 and 11 bits thorough); every one of these k-bit evaluations is lifted to 32 bits by the exact embedding x*2^(32-k)+c (several offsets c, for ordered pairs also different offsets per side, which reaches the distances 2^31-1 and 2^31+1) and executed on Serial (partial_cmp, the five operators, add), Timestamp, SOA/RRSIG wire round trips, sign_rrset's validity-period check, the zone diff builder's serial-range check, the XFR middleware's IXFR decision (single SOA for a client with the same or a newer serial, transfer otherwise; XfrMiddlewareSvc::preprocess with a data provider that offers diffs and with one that has none, i.e. both comparisons of the middleware), new::base::Serial and the new API's signature time (the Timestamp returned by new::rdata::Rrsig::expiration(): partial_cmp, the five operators, into_int, Display, the conversion into rdata::dnssec::Timestamp, Range::contains, its own to_system_time); the sites are a table in the specification (SerialSites.tla: kind, site, operator of Serial.tla) from which every generated case takes one expectation per site and which the executor has to reproduce; validity windows InWindow(lo, hi, x) (new::edns::Cookie::verify, Range::contains over all four serial / time types) are checked for every triple incl. windows straddling the wrap; the freshness decision of the server cookies middleware (CookiesMiddlewareSvc::timestamp_ok: at most one hour old, at most five minutes ahead, both by RFC 1982) is specified as Fresh(now, ts, past, future) with its laws (window form = distance form = two serial comparisons, exactly past+future+1 fresh values at any clock value, never fresh at the undefined distance, shift invariance, Tick / Renew steps) checked by TLC for all k-bit (clock, timestamp) pairs, and every pair is lifted inside TLC to 32 bits in limb form (five clock offsets x eleven second offsets around both window ends, so that pairs exactly 2^31 apart, pairs more than 2^31 'ahead' numerically and pairs on either side of the 2^32 wrap occur for every clock value) and put to the real middleware with correctly hashed cookies and the process clock set to the case's clock value (prefetch request and deny-listed UDP query) and to base::opt::Cookie::check_server_hash; the placement of a signature time next to a reference time (to_system_time of both timestamp types) is specified as Place(ref, ts) with its order-embedding, shift and era laws and the documented contract (same serial, difference fits a signed 32-bit integer, hence a serial exactly 2^31 from the reference is placed at reference - 2^31: LawPlaceDoc, LawPlaceTie) checked by TLC for all reference times in three eras (6 bits quick, 7 thorough), and every case is lifted (independent offsets on reference and serial) and executed; the text entry points of Timestamp (FromStr, Timestamp::scan through IterScanner, the zone-file reader's RRSIG fields; date form and integer form; Display and the zone-file formatter) are specified as 'text denotes a time t, the field holds t mod 2^k' and executed for every pair of times in three eras with real dates rendered by the harness (2106-02-07 and later included); recorded library runs on dense 32-bit operands (boundary distances 2^31+-2, neighbourhoods of 0 and 2^32-1, panicking addends, the zone store's SOA serial bump on commit) are validated by TLC through a 16-bit-limb model that TLC proves equal to the integer model at small widths.",
     "note": "Trusted: TLC, the transcription of RFC 1982 in Serial.tla, the uniformity in the limb base of SerialLimbs.tla (equivalence is TLC-checked at limb widths 4/5, used at 16), the harness. zonetree's Version type is private (not driven; derives its order from Serial). The harness interposes clock_gettime(CLOCK_REALTIME) for the freshness sites (self-tested at start-up together with the harness's own SipHash). Sites that use serials/times but are not bound here (NotBound in SerialSites.tla, listed in the evidence): validator check_sig / ttl_for_sig (compare in plain u32 order through canonical_gt/lt and saturating_sub: an observation DESIGN 10.3 deliberately leaves outside the claim), Soa / Rrsig / Zonemd record ordering (plain order by design), net::client::stream and the XFR interpreter (serial equality only), zonetree Version (private), keyset UnixTime (64-bit). Dense 2^64 coverage is sampled by traces; the full sweep of all 2^32 differences uses a Rust reference that the same TLC runs bind to the spec and is reported separately as an extension, as is the optional Apalache run for BITS=32.",
     "technique": "TLA+ spec (Serial.tla, SerialLimbs.tla) + TLC exhaustive; spec->impl replay through scaled embedding; impl->spec limb-encoded trace validation; reference sweep and Apalache as extensions",
     "design_ref": "DESIGN.md §4 C17",
@@ -425,6 +425,26 @@ def run(ctx):
         raise vlib.ToolError("vacuity: placement cases free=%d constrained=%d" % (n_free, n_con))
     kinds_total["place_constrained"] = n_con
     kinds_total["place_free"] = n_free
+    # the serial exactly half a cycle from the reference: the documented
+    # result is the earlier time; per era of the reference, with the serial
+    # numerically below / above the reference's, and before the epoch (free)
+    ties = {}
+    for line in text.splitlines():
+        if '"tie":true' not in line:
+            continue
+        o = json.loads(line[line.index("{"):])["in"]
+        m = 1 << o["k"]
+        key = ("tie_free" if o["free"] else
+               "tie_era%d_%s" % (o["ref"] // m, "below" if o["ts"] < o["ref"] % m else "above"))
+        ties[key] = ties.get(key, 0) + 1
+    eras = 1 + max(int(k[7]) for k in ties if k.startswith("tie_era"))
+    want = (["tie_free", "tie_era0_below"]
+            + ["tie_era%d_%s" % (e, s) for e in range(1, eras) for s in ("below", "above")])
+    missing = [k for k in want if ties.get(k, 0) == 0]
+    if missing or eras < 3:
+        raise vlib.ToolError("vacuity: placement cases lack the ties %s (eras %d)"
+                             % (missing, eras))
+    kinds_total.update({"place_" + k: v for k, v in ties.items()})
     ctx.replay_cases("replay_serial", pcases, label="serial-place")
 
     # 3. I->S: recorded runs on dense 32-bit operands, judged through limbs --
@@ -558,7 +578,8 @@ def run(ctx):
                "the thorough tier) and relied upon at width 16")
     ctx.assume("Soa's PartialOrd/Ord/CanonicalOrd compare serials as plain integers by design "
                "(record ordering, not zone-version ordering) and are not part of this property")
-    ctx.assume("to_system_time: at distance exactly 2^31 from the reference and where the "
+    ctx.assume("to_system_time: at distance exactly 2^31 the placed time is reference - 2^31 "
+               "(documented: the difference fits in an i32, i.e. -2^31 .. 2^31-1); where the "
                "placement would lie before the epoch only 'result = ts (mod 2^32)' is required")
     ctx.assume("text forms: dates before 1970 and integer tokens above 2^32-1 are outside the "
                "property and not generated; dates are rendered by the harness's own "
